@@ -33,6 +33,10 @@ int main (void) {
   printf("use_boehm %%d\n", (int)(SEXP_USE_BOEHM));
   printf("global_heap %%d\n", (int)(SEXP_USE_GLOBAL_HEAP));
   printf("size_t_bits %%d\n", (int)(8 * sizeof(size_t)));
+  { unsigned long k, bad = 0, u = sexp_heap_align(1);     /* sexp_heap_align(n) = the next multiple of u, on samples around unit multiples */
+    for (k = 0; k < 70000; k++) if ((unsigned long)sexp_heap_align(k) != ((k + u - 1) / u) * u) bad++;
+    for (k = 1; k < 60; k++) if ((unsigned long)sexp_heap_align((1UL << k) + 1) != ((((1UL << k) + 1) + u - 1) / u) * u) bad++;
+    printf("align_bad %%lu\n", bad); }
   printf("first_block %%lu\n", (unsigned long)((char*)sexp_heap_first_block(((sexp_heap)0)) - (char*)(((sexp_heap)0)->data)));
   return 0;
 }
@@ -43,8 +47,6 @@ SHAPES = {
     "growth test (gc.c sexp_alloc)":
         "if(((max_freed<size)||((total_size>sum_freed)&&(total_size-sum_freed)>(total_size*SEXP_GROW_HEAP_RATIO)))"
         "&&((!h->max_size)||(total_size<h->max_size)))sexp_grow_heap(ctx,size,0);",
-    "growth size (gc.c sexp_grow_heap)":
-        "new_size=(size_t)ceil(SEXP_GROW_HEAP_FACTOR*(double)(sexp_heap_align(((cur_size>size)?cur_size:size))));",
     "split test (gc.c sexp_try_alloc)":
         "if(ls2->size>=(size+SEXP_MINIMUM_OBJECT_SIZE)){",
     "fit test (gc.c sexp_try_alloc)":
@@ -76,7 +78,170 @@ def probe(d):
             k, v = line.split()
             vals[k] = v
     vals["shape_problems"] = shape_problems
+    vals["grow_src"], vals["grow_coq"] = grow_formula(src, Fraction(float.fromhex(vals["factor"])))
     return vals
+
+
+# ---------------------------------------------------------------------------------------------------------------
+# the growth formula of sexp_grow_heap, translated from the source text:  new_size = <expr>;
+# subset: identifiers cur_size, size; integer literals; (size_t) / (sexp_uint_t) / (unsigned long) casts of integer
+# expressions; sexp_heap_align(e); e ? e : e with a comparison as condition; + * / on integers (all values are
+# non-negative and far below 2^64: no wrap-around); ceil(K * (double)(e)) and ceil((double)(e) * K) with K a double
+# constant macro or literal (exact rational ceiling; exact below 2^53).  Anything else: fail closed.
+class FormulaError(Exception):
+    pass
+
+
+def _tokens(text):
+    out = []
+    for m in re.finditer(r"\s*(?:(\d+\.\d*|\.\d+)|(\d+)[uUlL]*|([A-Za-z_]\w*)|(>=|<=|==|!=|[-+*/()?:<>,]))", text):
+        if m.group(1):
+            out.append(("flt", m.group(1)))
+        elif m.group(2):
+            out.append(("int", m.group(2)))
+        elif m.group(3):
+            out.append(("id", m.group(3)))
+        else:
+            out.append(("op", m.group(4)))
+    if "".join(t[1] for t in out) != re.sub(r"\s+|(?<=\d)[uUlL]+", "", text):
+        raise FormulaError("untokenisable growth formula: %r" % text)
+    return out
+
+
+class _P:
+    INT_CASTS = {("size_t",), ("sexp_uint_t",), ("unsigned", "long"), ("long",), ("sexp_sint_t",)}
+
+    def __init__(self, toks, dconsts):
+        self.t, self.i, self.dconsts = toks, 0, dconsts
+
+    def peek(self, k=0):
+        return self.t[self.i + k] if self.i + k < len(self.t) else ("eof", "")
+
+    def eat(self, val=None):
+        tk = self.peek()
+        if val is not None and tk[1] != val:
+            raise FormulaError("expected %r, found %r" % (val, tk[1]))
+        self.i += 1
+        return tk
+
+    # every parse function returns (type, coq) with type "int" | "dbl" (dbl = exact rational as (num_coq, den_coq))
+    def ternary(self):
+        c = self.cmp()
+        if self.peek()[1] == "?":
+            if c[0] != "bool":
+                raise FormulaError("condition of ?: is not a comparison")
+            self.eat("?"); a = self.ternary(); self.eat(":"); b = self.ternary()
+            if a[0] != "int" or b[0] != "int":
+                raise FormulaError("?: on non-integers")
+            return ("int", "(if %s then %s else %s)" % (c[1], a[1], b[1]))
+        return c
+
+    def cmp(self):
+        a = self.add()
+        op = self.peek()[1]
+        if op in (">", "<", ">=", "<="):
+            self.eat(); b = self.add()
+            if a[0] != "int" or b[0] != "int":
+                raise FormulaError("comparison of non-integers")
+            coq = {">": "(%s <? %s)" % (b[1], a[1]), "<": "(%s <? %s)" % (a[1], b[1]),
+                   ">=": "(%s <=? %s)" % (b[1], a[1]), "<=": "(%s <=? %s)" % (a[1], b[1])}[op]
+            return ("bool", coq)
+        return a
+
+    def add(self):
+        a = self.mul()
+        while self.peek()[1] in ("+",):
+            self.eat(); b = self.mul()
+            if a[0] != "int" or b[0] != "int":
+                raise FormulaError("+ on non-integers")
+            a = ("int", "(%s + %s)" % (a[1], b[1]))
+        if self.peek()[1] == "-":
+            raise FormulaError("subtraction (size_t wrap-around) is outside the translated subset")
+        return a
+
+    def mul(self):
+        a = self.unary()
+        while self.peek()[1] in ("*", "/"):
+            op = self.eat()[1]; b = self.unary()
+            if a[0] == "int" and b[0] == "int":
+                a = ("int", "(%s %s %s)" % (a[1], "*" if op == "*" else "/", b[1]))
+            elif op == "*" and {a[0], b[0]} <= {"int", "dbl", "dint"} :
+                # rational product: (n1/d1)*(n2/d2); "dint" = (double) of an integer expression
+                na, da = (a[1], "1") if a[0] != "dbl" else a[1]
+                nb, db = (b[1], "1") if b[0] != "dbl" else b[1]
+                a = ("dbl", ("(%s * %s)" % (na, nb), "(%s * %s)" % (da, db)))
+            else:
+                raise FormulaError("double division is outside the translated subset")
+        return a
+
+    def unary(self):
+        tk = self.peek()
+        if tk == ("op", "("):
+            # cast?
+            j, words = self.i + 1, []
+            while self.t[j][0] == "id" and self.t[j][1] in ("size_t", "sexp_uint_t", "sexp_sint_t", "unsigned", "long", "double"):
+                words.append(self.t[j][1]); j += 1
+            if words and self.t[j] == ("op", ")"):
+                self.i = j + 1
+                e = self.unary()
+                if tuple(words) == ("double",):
+                    if e[0] != "int":
+                        raise FormulaError("(double) of a non-integer")
+                    return ("dint", e[1])
+                if tuple(words) in self.INT_CASTS:
+                    if e[0] != "int":
+                        raise FormulaError("integer cast of a double that is not a ceil(...)")
+                    return e
+                raise FormulaError("cast %s" % " ".join(words))
+            self.eat("("); e = self.ternary(); self.eat(")")
+            return e
+        if tk[0] == "int":
+            self.eat(); return ("int", tk[1])
+        if tk[0] == "flt":
+            self.eat(); fr = Fraction(float(tk[1])); return ("dbl", (str(fr.numerator), str(fr.denominator)))
+        if tk[0] == "id":
+            self.eat()
+            nm = tk[1]
+            if nm in ("cur_size", "size"):
+                return ("int", nm)
+            if nm == "sexp_heap_align":
+                self.eat("("); e = self.ternary(); self.eat(")")
+                if e[0] != "int":
+                    raise FormulaError("sexp_heap_align of a non-integer")
+                return ("int", "(heap_align %s)" % e[1])
+            if nm == "ceil":
+                self.eat("("); e = self.ternary(); self.eat(")")
+                if e[0] == "dbl":
+                    return ("int", "(cdiv %s %s)" % e[1])
+                if e[0] == "dint":
+                    return ("int", e[1])
+                raise FormulaError("ceil of an integer expression")
+            if nm in self.dconsts:
+                fr = self.dconsts[nm]
+                return ("dbl", self.dconsts_names.get(nm, (str(fr.numerator), str(fr.denominator))))
+            raise FormulaError("identifier %s is outside the translated subset" % nm)
+        raise FormulaError("unexpected token %r" % (tk[1],))
+
+
+def grow_formula(src, factor):
+    """Coq text of the right-hand side of `new_size = ...;` in sexp_grow_heap"""
+    m = re.search(r"int\s+sexp_grow_heap\s*\([^)]*\)\s*\{(.*?)\n\}", src, re.S)
+    if not m:
+        raise FormulaError("sexp_grow_heap not found")
+    body = re.sub(r"/\*.*?\*/", "", m.group(1), flags=re.S)
+    ms = re.findall(r"\bnew_size\s*=\s*([^;]*);", body)
+    if len(ms) != 1:
+        raise FormulaError("sexp_grow_heap assigns new_size %d times" % len(ms))
+    if not re.search(r"cur_size\s*=\s*h->size\s*;", body) or not re.search(r"sexp_make_heap\s*\(\s*new_size\s*,", body):
+        raise FormulaError("sexp_grow_heap no longer reads cur_size = h->size / calls sexp_make_heap(new_size, ...)")
+    p = _P(_tokens(ms[0]), {"SEXP_GROW_HEAP_FACTOR": factor})
+    p.dconsts_names = {"SEXP_GROW_HEAP_FACTOR": ("factor_num", "factor_den")}
+    e = p.ternary()
+    if p.peek()[0] != "eof":
+        raise FormulaError("trailing tokens in the growth formula: %r" % (p.peek()[1],))
+    if e[0] != "int":
+        raise FormulaError("the growth formula is not an integer expression")
+    return ms[0].strip(), e[1]
 
 
 def coq_text(vals):
@@ -89,7 +254,9 @@ def coq_text(vals):
         raise RuntimeError("gen/c10_consts: sexp_heap_first_block is no longer data + align(free chunk header)")
     if int(vals["size_t_bits"]) != 64:
         raise RuntimeError("gen/c10_consts: size_t is not 64 bits")
-    return ("(** REGENERATED by gen/c10_consts.py from the scratch build of $VERIF_REPO — do not edit. *)\n"
+    if int(vals.get("align_bad", "1")) != 0:
+        raise RuntimeError("gen/c10_consts: sexp_heap_align(n) is not the next multiple of sexp_heap_align(1)")
+    head = ("(** REGENERATED by gen/c10_consts.py from the scratch build of $VERIF_REPO — do not edit. *)\n"
             "From Coq Require Import ZArith.\nLocal Open Scope Z_scope.\n"
             "(* sexp_heap_align(1), include/chibi/sexp.h *)\nDefinition unit_sz : Z := %d.\n"
             "(* sexp_heap_align(sexp_free_chunk_size) = offset of sexp_heap_first_block *)\nDefinition hdr_sz : Z := %d.\n"
@@ -101,6 +268,12 @@ def coq_text(vals):
                vals["ratio"], ratio.numerator, ratio.denominator,
                vals["factor"], factor.numerator, factor.denominator,
                int(vals["init_heap"]), int(vals["max_heap"])))
+    tail = ("(* sexp_heap_align(n): the next multiple of unit_sz (checked by the probe on 70 000 values) *)\n"
+            "Definition heap_align (n : Z) : Z := ((n + unit_sz - 1) / unit_sz) * unit_sz.\n"
+            "(* ceil(n/d) for the double product inside ceil() *)\nDefinition cdiv (n d : Z) : Z := (n + d - 1) / d.\n"
+            "(* sexp_grow_heap, gc.c, TRANSLATED from:  new_size = " + vals["grow_src"].replace("*)", "* )") + ";  *)\n"
+            "Definition grow_formula (cur_size size : Z) : Z :=\n  " + vals["grow_coq"] + ".\n")
+    return head + tail
 
 
 def regen(ctx, d=None):
